@@ -1,6 +1,6 @@
 """C03 - check, mate and draw status; incrementally maintained state never goes stale
 (DESIGN.md section 5, C03)."""
-from boardchecks import board_pipeline
+from boardchecks import board_pipeline, sys_model_check
 from vlib import root_indices
 
 LEVEL = "model_checking"
@@ -23,3 +23,4 @@ def run(ctx):
           [("promo-%s-%d" % (v, f), "Families_pos.cfg", {"VERIF_FAMILY": "promo", "VERIF_VARIANT": v, "VERIF_FILE": f, "VERIF_SLICE": 0, "VERIF_SLICES": 2})
            for v in "rbq" for f in range(8)]
     board_pipeline(ctx, bfs, walks, fam)
+    sys_model_check(ctx, hot, 1 if ctx.tier == "quick" else 2)
